@@ -175,8 +175,9 @@ class NormalizationContext(AbstractHashQueueContext):
     def queue_hash(self, event: TraceEvent) -> int:
         return hash(event["pid"])
 
-    def extract_eventfilters(self, filterstr: str) -> dict[str, re.Pattern]:
-        event_filters: dict[str, re.Pattern] = {}
+    def extract_eventfilters(self, filterstr: str) -> list[tuple[str, re.Pattern]]:
+        # a list, not a dict: several entries may name the same attribute and every entry counts
+        event_filters: list[tuple[str, re.Pattern]] = []
         if len(filterstr.strip()) == 0:
             return event_filters
         for fstr in filterstr.split(","):
@@ -184,7 +185,7 @@ class NormalizationContext(AbstractHashQueueContext):
             if len(key_regex) != 2:
                 aiulog.log(aiulog.WARN, "FLTR: key:regex pattern not found in event filter. Skipping", fstr)
                 continue
-            event_filters[key_regex[0]] = re.compile(rf"{key_regex[1]}")
+            event_filters.append((key_regex[0], re.compile(rf"{key_regex[1]}")))
         aiulog.log(
             aiulog.INFO,
             f"FLTR: Event filtering is active. {len(event_filters)} filters enabled:",
@@ -192,7 +193,7 @@ class NormalizationContext(AbstractHashQueueContext):
         return event_filters
 
     def event_filtered(self, event: TraceEvent) -> bool:
-        for attr, regex in self.event_filter.items():
+        for attr, regex in self.event_filter:
             attr_tree = attr.split('.')
             e = event
             for a in attr_tree:
